@@ -59,10 +59,11 @@ class Half:
     def __init__(s, v, i): s.v = v; s.i = i
 class FV:
     """field word: cls = some integer (or algebra object) in the word's residue class mod p; rep = exact word if known"""
-    __slots__ = ('cls', 'rep')
-    def __init__(s, cls, rep=None): s.cls = cls; s.rep = rep
+    __slots__ = ('cls', 'rep', 'ub')
+    def __init__(s, cls, rep=None, ub=None): s.cls = cls; s.rep = rep; s.ub = ub     # ub: known upper bound of the word's integer value (None: 2^64-1)
     def __repr__(s): return 'FV(%s)' % (s.cls,)
 NULL = Ptr(None, 0)
+FALG = [None]      # field algebra of the current F-mode run (set by fmode.install_scalar)
 
 def split64(c):
     if c is POISON: return [POISON, POISON]
@@ -79,6 +80,14 @@ def join64(lo, hi):
 
 def binop(op, a, b, w):
     if a is POISON or b is POISON: return POISON
+    if isinstance(a, Ptr) or isinstance(b, Ptr):
+        # integer arithmetic on pointers that went through ptrtoint: differences inside one object and pointer +/- integer keep their meaning
+        if op == 'sub' and isinstance(a, Ptr) and isinstance(b, Ptr):
+            if a.obj is b.obj: return binop('sub', a.off, b.off, w)
+            raise Unsupported('difference of pointers into different objects')
+        if op in ('add', 'sub') and isinstance(a, Ptr) and not isinstance(b, (Ptr, FV, Half, float)): return Ptr(a.obj, binop(op, a.off, b, w))
+        if op == 'add' and isinstance(b, Ptr) and not isinstance(a, (Ptr, FV, Half, float)): return Ptr(b.obj, binop('add', b.off, a, w))
+        raise Unsupported('integer operation %s on a pointer' % op)
     if isinstance(a, float) or isinstance(b, float):
         return {'fadd': lambda: a + b, 'fsub': lambda: a - b, 'fmul': lambda: a * b, 'fdiv': lambda: a / b}[op]()
     if isinstance(a, (FV, Half)) or isinstance(b, (FV, Half)):
@@ -90,6 +99,12 @@ def binop(op, a, b, w):
         if op == 'or':
             x, m = (a, b) if isinstance(a, (FV, Half)) else (b, a)
             if is_c(m) and m == 0: return x
+        if op == 'add' and w == 64 and FALG[0] is not None:
+            # integer addition of two words with known bounds that cannot wrap is the field addition of their classes
+            ua = a.ub if isinstance(a, FV) else (a if is_c(a) else None); ub_ = b.ub if isinstance(b, FV) else (b if is_c(b) else None)
+            if ua is not None and ub_ is not None and ua + ub_ < (1 << 64):
+                ca = a.cls if isinstance(a, FV) else a; cb = b.cls if isinstance(b, FV) else b
+                return FV(FALG[0].add(ca, cb), ub=ua + ub_)
         raise Unsupported('bit-level op %s on a field word' % op)
     if is_c(a) and is_c(b):
         m = mask(w)
@@ -483,9 +498,41 @@ class Interp:
         if name.startswith('@llvm.umin'): return s._minmax(a, 'ult')
         if name.startswith('@llvm.smax'): return s._minmax(a, 'sgt')
         if name.startswith('@llvm.smin'): return s._minmax(a, 'slt')
-        if name.startswith('@llvm.umul.with.overflow.i64'):
-            x, y = s.concretize(a[0], 64, 'umul.with.overflow'), s.concretize(a[1], 64, 'umul.with.overflow')
-            return [(x * y) & mask(64), int(x * y > mask(64))]
+        m_ = re.match(r'@llvm\.([us])(add|sub|mul)\.with\.overflow\.i(\d+)$', name)
+        if m_ and not isinstance(a[0], list):
+            sg_, op_, wd = m_.group(1), m_.group(2), int(m_.group(3)); x, y = a
+            if isinstance(x, (FV, Half)) or isinstance(y, (FV, Half)): raise Unsupported('%s on a field word' % name)
+            if is_c(x) and is_c(y):
+                if sg_ == 's':
+                    sx = x - (1 << wd) if x >> (wd - 1) else x; sy = y - (1 << wd) if y >> (wd - 1) else y
+                    e = {'add': sx + sy, 'sub': sx - sy, 'mul': sx * sy}[op_]; return [e & mask(wd), int(not (-(1 << (wd - 1)) <= e < (1 << (wd - 1))))]
+                e = {'add': x + y, 'sub': x - y, 'mul': x * y}[op_]; return [e & mask(wd), int(not (0 <= e <= mask(wd)))]
+            X = tobv(x, wd); Y = tobv(y, wd)
+            if op_ == 'mul':
+                ext = z3.ZeroExt if sg_ == 'u' else z3.SignExt
+                pr = ext(wd, X) * ext(wd, Y); lo = z3.Extract(wd - 1, 0, pr); hi = z3.Extract(2 * wd - 1, wd, pr)
+                ov = (hi != 0) if sg_ == 'u' else (hi != z3.If(z3.Extract(wd - 1, wd - 1, lo) == 1, z3.BitVecVal(mask(wd), wd), z3.BitVecVal(0, wd)))
+                return [lo, ov]
+            r = binop(op_, X, Y, wd)
+            if sg_ == 'u': ov = z3.ULT(r, X) if op_ == 'add' else z3.ULT(X, Y)
+            elif op_ == 'add': ov = z3.And((X < 0) == (Y < 0), (r < 0) != (X < 0))
+            else: ov = z3.And((X < 0) != (Y < 0), (r < 0) != (X < 0))
+            return [r, ov]
+        m_ = re.match(r'@llvm\.x86\.(?:avx|avx2|sse41)\.(?:blendv\.p[ds]|pblendvb)', name)
+        if m_:
+            # lane i of the result is y[i] if the top bit of mask lane i is set, else x[i] (lane words keep their integer bits through the fp bitcasts)
+            x, y, mk = a; wd = (256 if (name.endswith('.256') or 'avx2.pblendvb' in name) else 128) // len(x)
+            if any(isinstance(v, (FV, Half)) for v in mk): raise Unsupported('blendv mask is a field word')
+            return [s.sel(icmp('slt', mi, 0, wd), yi, xi, I(wd)) for xi, yi, mi in zip(x, y, mk)]
+        m_ = re.match(r'@llvm\.x86\.(?:avx|avx2|sse2|sse)\.(?:movmsk\.p[ds]|pmovmskb)', name)
+        if m_:
+            x = a[0]; wd = (256 if (name.endswith('.256') or 'avx2' in name) else 128) // len(x); r = 0
+            for i, xi in enumerate(x):
+                if isinstance(xi, (FV, Half)): raise Unsupported('movmsk on a field word')
+                b = icmp('slt', xi, 0, wd)
+                bit = (int(bool(b)) << i) if is_c(b) else z3.If(tobool(b), z3.BitVecVal(1 << i, 32), z3.BitVecVal(0, 32))
+                r = (r | bit) if (is_c(r) and is_c(bit)) else (tobv(r, 32) | tobv(bit, 32))
+            return r
         if name.startswith('@llvm.x86.avx512.vpermi2var'):
             x, idx, y = a; n = len(x); return [(x + y)[s.concretize(i) & (2 * n - 1)] for i in idx]
         if name.startswith('@llvm.x86.avx512.permvar') or name.startswith('@llvm.x86.avx2.permd') or name.startswith('@llvm.x86.avx2.permps'):
